@@ -67,6 +67,9 @@ pub(crate) fn on_process(c: &Completion) -> bool {
     }
 }
 
+pub(crate) fn geometry(c: &Completions) -> (u32, usize, usize, usize, u32) {
+    (c.entries_len, c.entries_head.as_ptr().addr(), c.entries_tail.as_ptr().addr(), c.entries.as_ptr().addr(), c.ring_len)
+}
 pub(crate) unsafe fn call_process(c: &Completion) {
     unsafe { c.process() }
 }
@@ -288,4 +291,96 @@ fn c05_process_dispatches_rest() {
     unsafe { c.process() };
     assert!(unsafe { P.dispatched } == 1, "operation completions reach the dispatch exactly once");
     kani::cover!(true, "dispatched");
+}
+
+// =========================================================================================
+// C12  c12.completions.new_drop — Completions::new then Drop: the completion ring is unmapped with the length it
+//   was mapped with; a failing madvise unmaps immediately.
+// =========================================================================================
+#[kani::proof]
+#[kani::unwind(3)]
+fn c12_completions_new_drop() {
+    let mut mem = crate::io_uring::verif_uring::MapMem { a: [0; 256], b: [0; 256] };
+    let mut params: libc::io_uring_params = unsafe { std::mem::zeroed() };
+    params.cq_entries = kani::any();
+    kani::assume(params.cq_entries == 1 || params.cq_entries == 2 || params.cq_entries == 4 || params.cq_entries == 8);
+    params.cq_off.cqes = kani::any();
+    params.cq_off.head = kani::any();
+    params.cq_off.tail = kani::any();
+    kani::assume(params.cq_off.cqes <= 64 && params.cq_off.head <= 60 && params.cq_off.tail <= 60);
+    let fail: bool = kani::any();
+    let fail_adv: bool = kani::any();
+    unsafe {
+        env::E.mmap_ret[0] = if fail { std::ptr::null_mut() } else { mem.a.as_mut_ptr().cast() };
+        env::E.madvise_ret[0] = if fail_adv { -1 } else { 0 };
+    }
+    let r = Completions::new(1000, &params);
+    let ok = r.is_ok();
+    if ok {
+        assert!(env::live_maps() == 1 && unsafe { env::E.maps[0].1 } == (params.cq_off.cqes + params.cq_entries * 16) as usize);
+        let a = unsafe { env::E.mmap_args[0] };
+        assert!(a.3 == 1000 && a.4 == libc::IORING_OFF_CQ_RING as i64);
+    }
+    drop(r);
+    assert!(env::live_maps() == 0 && unsafe { env::E.munmap_bad } == 0, "unmapped with its own address and length");
+    assert!(unsafe { env::E.close_n } == 0, "the completion side never closes the ring fd");
+    kani::cover!(ok, "built then dropped");
+    kani::cover!(!ok && unsafe { env::E.munmap_n } == 1, "madvise failed: unmapped at once");
+}
+
+// =========================================================================================
+// C12  c12.cq_drop — Ring drop: flush queued submissions (clean-up requests), synchronously cancel everything still
+//   running, fetch and process the completions that produced — in that order, tolerating every error.
+// =========================================================================================
+#[kani::proof]
+#[kani::unwind(3)]
+fn c12_cq_drop() {
+    let h: u32 = kani::any();
+    let mut cq = FakeCq::<2>::new(h, h);
+    cq.cqes[(h & 1) as usize] = cqe(CANCEL_USER_DATA, -libc::ENOENT, 0);
+    let sh: u32 = kani::any();
+    let st: u32 = kani::any();
+    kani::assume(ring_inv(sh, st, 2));
+    let mut sq = FakeSq::<2>::new(sh, st, 0);
+    let kernel_thread: bool = kani::any();
+    let shared = sq.shared(2, kernel_thread, false);
+    let mut comps = cq.completions(2);
+    // every step may fail
+    let rets: [i32; 3] = [kani::any(), kani::any(), kani::any()];
+    kani::assume(rets[0] >= -1 && rets[1] >= -1 && rets[2] >= -1);
+    let errno: i32 = kani::any();
+    kani::assume(errno == libc::EINTR || errno == libc::EBADF || errno == libc::ETIME || errno == libc::EBUSY);
+    let reg_fail: bool = kani::any();
+    unsafe {
+        P.record = 1;
+        env::E.k_cq_tail = &cq.tail;
+        env::E.enter_ret = [rets[0], rets[1], rets[2], 0];
+        env::E.enter_errno = [errno; 4];
+        env::E.enter_publish[1] = 1; // the cancelled operation's completion shows up at the fetch
+        env::E.reg_ret[0] = if reg_fail { -1 } else { 0 };
+        env::E.reg_errno[0] = libc::EINVAL;
+        env::E.reg_copy = 64;
+    }
+    env::skip_wake_blocked_futures();
+    comps.drop(&shared);
+    // order of kernel interactions
+    assert!(env::evat(0).0 == env::EV_ENTER, "1: flush");
+    let flush = unsafe { env::E.enters[0] };
+    assert!(flush.min_complete == u32::MAX && flush.has_ts && flush.ts_sec == 1, "flush: submit everything queued, bounded wait");
+    assert!((flush.flags & libc::IORING_ENTER_SQ_WAIT != 0) == kernel_thread && flush.flags & libc::IORING_ENTER_GETEVENTS == 0);
+    assert!(if kernel_thread { flush.to_submit == 0 } else { flush.to_submit == st.wrapping_sub(sh) });
+    assert!(env::evat(1).0 == env::EV_REGISTER && env::evat(1).1 == libc::IORING_REGISTER_SYNC_CANCEL as u64, "2: cancel everything that is still running");
+    let call = unsafe { env::E.regs[0] };
+    // struct io_uring_sync_cancel_reg { u64 addr; s32 fd; u32 flags; timespec{ s64 sec; s64 nsec } ... }
+    assert!(call.nr_args == 1 && call.words[0] == 0 && (call.words[1] >> 32) as u32 == libc::IORING_ASYNC_CANCEL_ANY | libc::IORING_ASYNC_CANCEL_ALL && call.words[2] == 1 && call.words[3] == 0, "cancel ANY|ALL with a 1 s timeout");
+    assert!(env::evat(2).0 == env::EV_ENTER, "3: fetch what the cancellation produced");
+    let fetch = unsafe { env::E.enters[1] };
+    assert!(fetch.min_complete == 1 && fetch.flags & libc::IORING_ENTER_GETEVENTS != 0 && fetch.has_ts && fetch.ts_sec == 0 && fetch.ts_nsec == 0);
+    // 4: process them
+    if rets[1] >= 0 {
+        assert!(unsafe { P.n } == 1 && cq.head.load(Ordering::SeqCst) == h.wrapping_add(1), "the remaining completions are processed");
+    }
+    kani::cover!(rets[0] == -1 && reg_fail && rets[1] >= 0, "flush and cancel failed, still drained");
+    kani::cover!(rets[1] == -1 && errno == libc::EBADF, "fetch failed");
+    kani::cover!(kernel_thread, "kernel thread ring");
 }
